@@ -241,6 +241,12 @@ def run(ctx):
                         init[t_.id] = s.value
             acc = txt(rets[0].value)
             lb = list(lp.body)
+            # `if z != 1: zk *= z` is `zk *= z` (multiplying by exactly 1 changes nothing): the guard is looked through
+            for i_, s_ in enumerate(lb):
+                if isinstance(s_, ast.If) and not s_.orelse and len(s_.body) == 1 and astx.as_aug(s_.body[0]) is not None and isinstance(astx.as_aug(s_.body[0]).op, ast.Mult):
+                    fac = txt(astx.as_aug(s_.body[0]).value)
+                    if txt(s_.test) in (f"{fac} != 1", f"{fac} != 1.0", f"1 != {fac}", f"not {fac} == 1", f"not ({fac} == 1)"):
+                        lb[i_] = s_.body[0]
             if counted is not None:
                 init = dict(init)
             A = {id(s_): astx.as_aug(s_) for s_ in lb}
@@ -335,6 +341,15 @@ def run(ctx):
                 r2 = rules.compare_with_pivot(br.test, lambda x: txt(x) == (term_name or txt(add.value)))
                 if r2 is not None and r2[0] in ("<", "<="):
                     r = r2
+            # `.. or k >= 1000`: an iteration cap ends the series whatever the size of the term - a slowly converging series (exponent close
+            # to 1) is cut off long before its terms drop below the tolerance, and the constant comes out too small
+            if r is None and isinstance(br.test, ast.BoolOp) and isinstance(br.test.op, ast.Or):
+                caps = [v_ for v_ in br.test.values if isinstance(v_, ast.Compare) and len(v_.ops) == 1 and isinstance(v_.ops[0], (ast.Gt, ast.GtE, ast.Eq))
+                        and isinstance(v_.left, ast.Name) and v_.left.id == kv and astx.const_value(v_.comparators[0]) is not None]
+                if caps:
+                    o.violated(sf, br, f"the series also stops when `{txt(caps[0])}`, whatever the size of the term: for a slowly converging series the sum is cut off while its "
+                                       "terms are still far above the tolerance (the normalising constant, and with it every probability, is off)", shape_free=True)
+                    continue
             if r is None or r[0] not in ("<", "<="):
                 o.undecided(f"exit test `{txt(br.test)}` is not |term| < tol", sf, br) if r is None else o.violated(sf, br, f"exit test `{txt(br.test)}` stops while terms are still large")
             else:
